@@ -161,7 +161,9 @@ pub fn walk(router: &Router<Rule>, example: &Example, max_hops: u8, domains: &[S
     for i in 1..=max_hops {
         let e = example.with_url(url.clone()).with_method(Some(method.clone()));
         let Some((fin, _backend, headers, _, _)) = pipeline(router, &e) else { break };
-        if ![301u16, 302, 307, 308].contains(&fin) {
+        // the statuses a client follows to the Location: 303 (See Other) is one of them and, like 301 / 302 in practice, turns the
+        // next request into a GET (round 4, D51: the analysis had left it out)
+        if ![301u16, 302, 303, 307, 308].contains(&fin) {
             break;
         }
         let Some((_, loc)) = headers.iter().find(|(n, _)| n.eq_ignore_ascii_case("location")) else { break };
@@ -176,7 +178,7 @@ pub fn walk(router: &Router<Rule>, example: &Example, max_hops: u8, domains: &[S
         if i > 1 {
             error = Some("AtLeastOneHop");
         }
-        if fin == 301 || fin == 302 {
+        if fin == 301 || fin == 302 || fin == 303 {
             method = "GET".to_string();
         }
         if hops.iter().any(|(u, _, m)| *u == url && *m == method) {
@@ -473,7 +475,7 @@ fn body_strategy() -> BoxedStrategy<Body> {
     ]);
     let example = (0u8..4, pickw(vec![(3u32, None), (2, Some("GET".to_string())), (2, Some("POST".to_string()))]), pickw(vec![(3u32, None), (1, Some(200u16)), (2, Some(404))]), prop::bool::weighted(0.8), 0u8..5);
     (
-        (0..PATHS.len(), prop::bool::weighted(0.15), pickw(vec![(2u32, None), (3, Some(301u16)), (2, Some(302)), (1, Some(307)), (2, Some(308)), (1, Some(404))]), target),
+        (0..PATHS.len(), prop::bool::weighted(0.15), pickw(vec![(2u32, None), (3, Some(301u16)), (2, Some(302)), (1, Some(303)), (1, Some(307)), (2, Some(308)), (1, Some(404))]), target),
         (pickw(vec![(6u32, None), (2, Some((vec![404u16], false))), (1, Some((vec![200], false))), (1, Some((vec![404], true)))]), 0u16..4, pickw(vec![(5u32, None), (1, Some(vec!["GET".to_string()])), (1, Some(vec!["POST".to_string()])), (2, Some(vec!["GET".to_string(), "POST".to_string()]))])),
         (prop::option::weighted(0.4, 0u8..5), 0u8..6, pickw(vec![(4u32, None), (1, Some(true)), (1, Some(false))]), prop::bool::weighted(0.08), prop::bool::weighted(0.08), 0u8..16),
         prop::collection::vec(example, 1..=2),
